@@ -1053,6 +1053,26 @@ func (env *Env) trCall(x *ECall) TV {
 		argN(1)
 		v := env.tr(x.Args[0])
 		return TV{app(">=", e.minid(v), env.alloc0), tyBool}
+	case "owned": // owned(x, o): the memory x refers to directly lies in the region of object o (ids >= minid(o))
+		argN(2)
+		v, o := env.tr(x.Args[0]), env.tr(x.Args[1])
+		var ids []Term
+		e.refIds(v.T, v.Ty, &ids, 0)
+		var cs []Term
+		for _, id := range ids {
+			cs = append(cs, or(eq(id, "0"), app(">=", id, e.minid(o))))
+		}
+		return TV{and(cs...), tyBool}
+	case "notowned": // notowned(x, o): the memory x refers to directly is older than the region of object o
+		argN(2)
+		v, o := env.tr(x.Args[0]), env.tr(x.Args[1])
+		var ids []Term
+		e.refIds(v.T, v.Ty, &ids, 0)
+		var cs []Term
+		for _, id := range ids {
+			cs = append(cs, app("<", id, e.minid(o)))
+		}
+		return TV{and(cs...), tyBool}
 	case "allocated": // everything the value refers to directly existed at function entry
 		argN(1)
 		v := env.tr(x.Args[0])
@@ -1152,6 +1172,36 @@ func (env *Env) trCall(x *ECall) TV {
 		e.declBytesStr()
 		h := env.heap(e.elemHeap(sl.Elem()))
 		return TV{app("bytes_str", app("select", h, app("s_arr", b.T)), app("idx", app("s_off", b.T), lo), app("-", hi, lo)), tyString}
+	case "elemptr", "epidx", "pointsinto":
+		// element pointers as values (elemptr.go): elemptr(s, k) = &s[k]; pointsinto(p, s): p is the address of an element
+		// of s's backing array; epidx(p, s): the index k with p == &s[k]
+		e.decl("fn:mk_ep", "(declare-fun mk_ep (Int Int) Int)")
+		e.decl("fn:ep_arr", "(declare-fun ep_arr (Int) Int)")
+		e.decl("fn:ep_idx", "(declare-fun ep_idx (Int) Int)")
+		if !e.declared["ax:mk_ep"] {
+			e.declared["ax:mk_ep"] = true
+			e.axioms = append(e.axioms,
+				"(assert (forall ((a Int) (i Int)) (! (and (= (ep_arr (mk_ep a i)) a) (= (ep_idx (mk_ep a i)) i) (< (mk_ep a i) 0)) :pattern ((mk_ep a i)))))")
+		}
+		argN(2)
+		var pv, sv TV
+		if x.Fn == "elemptr" {
+			sv, pv = env.tr(x.Args[0]), env.tr(x.Args[1])
+		} else {
+			pv, sv = env.tr(x.Args[0]), env.tr(x.Args[1])
+		}
+		sl, ok := sv.Ty.Underlying().(*types.Slice)
+		if !ok {
+			specFail("%s: not a slice", x.Fn)
+		}
+		switch x.Fn {
+		case "elemptr":
+			return TV{app("mk_ep", app("s_arr", sv.T), app("idx", app("s_off", sv.T), pv.T)), types.NewPointer(sl.Elem())}
+		case "pointsinto":
+			return TV{and(app("<", pv.T, "0"), eq(app("ep_arr", pv.T), app("s_arr", sv.T)), eq(pv.T, app("mk_ep", app("ep_arr", pv.T), app("ep_idx", pv.T)))), tyBool}
+		default:
+			return TV{app("-", app("ep_idx", pv.T), app("s_off", sv.T)), tyInt}
+		}
 	case "sub":
 		// sub(s, lo, hi): the slice s[lo:hi] (same backing array)
 		argN(3)
